@@ -327,11 +327,8 @@ def run_entry_points(spec, assignment, root, side):
                 if lines and lines[0].startswith("Found the following errors") else [["?", str(e)[:200]]]
             obs[label] = ["rejected", errs, _count(side) - before]
 
-    n = [0]
-
-    def fresh():
-        n[0] += 1
-        return os.path.join(root, "c%d" % n[0])
+    def fresh():           # a new cache directory per attempt: nothing may be served from a cache
+        return tempfile.mkdtemp(prefix="c", dir=root)
 
     attempt("call", lambda: rg.make_task(cls, spec, assignment)(cache_root=fresh(), worker="debug"))
 
